@@ -178,6 +178,15 @@ def check(case):
     key = (case['factory'] if case['factory'] != 'dynamics' else 'single', case['model'], case['mode'], case['proj'], case['order'], max(qdeg, 1))
     F = get_fns(key)
     U = smooth_field(coords, case['ucoef'], case['amp'])
+    # the generated field must not invert an element (on strongly skewed coarse meshes the interpolant of a smooth field can):
+    # keep the displacement gradient of every vertex triangle below 0.3 in max norm
+    Uv = smooth_field(c1, case['ucoef'], case['amp'])
+    gmax = 0.0
+    for tri in t1:
+        dX = (c1[tri[1:]] - c1[tri[0]]).T
+        dU = (Uv[tri[1:]] - Uv[tri[0]]).T
+        gmax = max(gmax, float(onp.abs(dU @ onp.linalg.inv(dX)).max()))
+    U = U * min(1.0, 0.3 / max(gmax, 1e-300))
     if case['mode'] == 'axisymmetric':
         # the hoop stretch 1 + u_r / r must stay positive (the field is scaled with the mesh extent, which on slender
         # meshes exceeds the radius): keep |u_r| <= 0.3 r_min
